@@ -1,14 +1,15 @@
-"""C07 - GCM streaming equals one-shot: the part within reach of the engine today is the init step
-(asmsym symbolic execution + z3): every context field that update/finalize later read is defined by init."""
+"""C07 - GCM streaming equals one-shot (asmsym symbolic execution + z3): init defines every context field that update /
+finalize read; for every listed segmentation the bytes produced by init+update*+finalize and by the one-shot call are both
+proved equal to in XOR E_K(inc32^i(J0)) (hence to each other).  The tag VALUE (GHASH) is not decided."""
 from common import Evidence, Verdict
 import aescampaign
 
 
 def run(tier):
     ev, vd = Evidence("C07", tier), Verdict("C07", tier)
-    aescampaign.run("C07", tier, ev, vd, only=("gcminit",))
-    ev.cov["outside_bounds"] += ["update / finalize / one-shot data paths: the GHASH value (carry-less multiplication by a symbolic hash key) is not decided, so 'streaming == one-shot' is established only for the state that init hands to the first update",
-                                 "AAD lengths not listed"]
+    aescampaign.run("C07", tier, ev, vd, only=("gcminit", "gcmstream", "gcmdata"))
+    ev.cov["outside_bounds"] += ["the tag value: GHASH is carry-less multiplication by a symbolic hash key (uninterpreted here), so 'same tag' is NOT decided; what is decided for the tag is that exactly tag_len bytes are written and that it does not depend on stale state",
+                                 "segmentations / lengths / AAD lengths not listed; the non-temporal variants"]
     ev.assume("decided for _aes_gcm_init_{128,256}_{sse,avx_gen2,avx_gen4,vaes_avx512} and every listed AAD length, for all keys / IVs / AAD bytes: aad_length = aad_len, in_length = 0, partial_block_length = 0, orig_IV = current_counter = IV || 0^31 1, no field depends on stale state (the AAD hash value itself is not compared with GHASH)",
               "pclmulqdq with two symbolic operands is an uninterpreted function")
     return ev, vd
